@@ -595,6 +595,22 @@ func c38KeysNearLine(out string, line int) map[string]bool {
 	return near
 }
 
+// c38SpellingOK: the group spellings of a (replayed) setting are ones the metadata documents.
+func c38SpellingOK(s *c38Setting, st c38Set) bool {
+	ok := func(g string) bool {
+		if g == "" || g == s.V1Group {
+			return true
+		}
+		for _, a := range s.Aliases {
+			if a == g {
+				return true
+			}
+		}
+		return false
+	}
+	return ok(st.Group) && (st.Alt == nil || ok(st.Alt.Group))
+}
+
 // targets of a setting: the v2 "Group.Key" names it feeds
 func c38Targets(s *c38Setting) []string {
 	var t []string
@@ -623,9 +639,19 @@ func execC38Config(c c38Case, res *vkit.Result) {
 	seen := map[string]bool{}
 	for _, st := range c.Settings {
 		s := tab.ByPath[st.Path]
-		if s == nil || st.Val.node() == nil || seen[st.Path] {
+		if s == nil || st.Val.node() == nil || seen[st.Path] || !c38SpellingOK(s, st) {
 			res.Class("setting-not-in-domain")
 			continue
+		}
+		if len(s.Aliases) > 1 {
+			switch {
+			case st.Alt != nil:
+				res.Class("alias=both-spellings")
+			case st.Group == "" || st.Group == s.Aliases[0]:
+				res.Class("alias=first-spelling")
+			default:
+				res.Class("alias=other-spelling")
+			}
 		}
 		seen[st.Path] = true
 		remaining = append(remaining, st)
@@ -664,8 +690,8 @@ func execC38Config(c c38Case, res *vkit.Result) {
 	}
 	res.NonTrivial = nonDefault >= 5 && renamed && unit
 
-	sig := func(s *c38Setting, v c38Val, verdict string) string {
-		return fmt.Sprintf("C38/config/%s/%s/%s/%s/%s", c.Format, c38HelperName(s), c38ValClass(s, v), verdict, s.V1Path)
+	sig := func(s *c38Setting, st c38Set, verdict string) string {
+		return fmt.Sprintf("C38/config/%s/%s/%s/%s/%s", c.Format, c38HelperName(s), c38ValClass(s, st.Val), verdict, c38SetName(s, st))
 	}
 	drop := func(paths map[string]bool) {
 		var keep []c38Set
@@ -711,7 +737,7 @@ func execC38Config(c c38Case, res *vkit.Result) {
 			culprits[path] = true
 			st := byPath[path]
 			s := tab.ByPath[path]
-			res.Violate(sig(s, st.Val, verdict), "v1 %s = %s (%s input, template helper %s -> %s.%s): %s", path, st.Val, c.Format, c38HelperName(s), s.V2Group, s.V2Key, detail)
+			res.Violate(sig(s, st, verdict), "v1 %s = %s (%s input, template helper %s -> %s.%s): %s", c38SetName(s, st), st.Val, c.Format, c38HelperName(s), s.V2Group, s.V2Key, detail)
 		}
 		blameAll := func(found map[string]c38PipeResult) {
 			var paths []string
@@ -878,7 +904,12 @@ func c38CompareConfig(tab *c38Table, c c38Case, sets []c38Set, cfg config.Config
 			continue
 		}
 		if s.V2Group != "" {
-			want := c38Expected(s, st.Val)
+			jv, judged := c38Judged(tab, sets, st)
+			if !judged {
+				res.Class("alias-section-shadowed-not-judged")
+				continue
+			}
+			want := c38Expected(s, jv)
 			targets := append([][2]string{{s.V2Group, s.V2Key}}, s.Also...)
 			okAny := false
 			var gots []string
@@ -902,8 +933,12 @@ func c38CompareConfig(tab *c38Table, c c38Case, sets []c38Set, cfg config.Config
 				if lost {
 					verdict = "lost"
 				}
-				res.Violate(fmt.Sprintf("C38/config/%s/%s/%s/%s/%s", c.Format, c38HelperName(s), c38ValClass(s, st.Val), verdict, s.V1Path),
-					"v1 %s = %s (%s input, template helper %s): expected effective v2 value %#v, loaded v2 config has %s", s.V1Path, st.Val, c.Format, c38HelperName(s), want, strings.Join(gots, ", "))
+				written := fmt.Sprint(st.Val)
+				if st.Alt != nil {
+					written = fmt.Sprintf("%s under [%s] and %s under [%s] (documented order %v)", st.Val, c38Placements(s, st)[0].Group, st.Alt.Val, st.Alt.Group, s.Aliases)
+				}
+				res.Violate(fmt.Sprintf("C38/config/%s/%s/%s/%s/%s", c.Format, c38HelperName(s), c38ValClass(s, jv), verdict, c38SetName(s, st)),
+					"v1 %s = %s (%s input, template helper %s): expected effective v2 value %#v, loaded v2 config has %s", c38SetName(s, st), written, c.Format, c38HelperName(s), want, strings.Join(gots, ", "))
 			}
 			res.Class("compared-setting")
 		}
